@@ -80,14 +80,22 @@ def eval_doc(case):
         else:
             info["outcome"] = "refused:" + type(err).__name__
         return vs, info
+    if err is not None and spec.get("_may_refuse"):
+        info["outcome"] = "refused-yaml-typed-token:" + type(err).__name__
+        return vs, info
     if err is not None:
         vs.append(core.viol("c18/refuses-wellformed-" + _dims(case), "well-formed document %s is refused: %r" % (cid, err), case))
         info["outcome"] = "refused-valid"
         return vs, info
     info["outcome"] = "built"
     info["assemblies"] = len(r.core)
-    for cls, msg in c18_model.compare(spec, r):
-        vs.append(core.viol("c18/built-differs-%s" % cls, "%s: %s" % (cid, msg), case))
+    diffs = c18_model.compare(spec, r)
+    if diffs and spec.get("_keytag"):
+        # one class per token kind / field (the mechanism), the differences go into the message
+        vs.append(core.viol("c18/built-differs-%s" % spec["_keytag"], "%s: %s" % (cid, " | ".join("[%s] %s" % d for d in diffs[:3])), case))
+    else:
+        for cls, msg in diffs:
+            vs.append(core.viol("c18/built-differs-%s" % cls, "%s: %s" % (cid, msg), case))
     # determinism: the same text built again
     o1 = observe.obs(r, rank=True)
     r2, _ = _build(text, 7919)  # the state of ``random`` (provisional names) must not matter either
@@ -104,6 +112,10 @@ def eval_doc(case):
 
 def _dims(case):
     return "+".join(sorted(d for d, _ in case["devs"])) or "base"
+
+
+def _yaml_text(v):
+    return "true" if v is True else "false" if v is False else "null" if v is None else str(v)
 
 
 def _save_roundtrip(case, cid, spec, text):
@@ -123,7 +135,8 @@ def _save_roundtrip(case, cid, spec, text):
         want = {tuple(k): v for k, v in g["contents"].items()}
         gd = bp2.gridDesigns[gname]
         gd._readGridContents()
-        got = {tuple(k): v for k, v in (gd.gridContents or {}).items()}
+        # (explicit grid contents are YAML values: an unquoted 1 reloads as the integer 1 - same text)
+        got = {tuple(k): _yaml_text(v) for k, v in (gd.gridContents or {}).items()}
         if got != want:
             form = "lattice map" if gd.latticeMap else "grid contents"
             vs.append(
